@@ -39,6 +39,9 @@ func c08Alphabet(thorough bool) []string {
 	a = append(a, "unsub:A:nm:Lnm:d", "unsub:A:e1f1:L1lc:n", "unsub:A:e1f9:L1lc:d", "unsub:A:e1f1:L1x:d", "unsub:B:e2f2:L2lc:d")
 	// a delete whose client address names the other peer's device (same numbers): no entry of the sender
 	a = append(a, "unsub:B:e1f1:L1lc:x", "unsub:A:e1f1:L2lc:x")
+	// nested addresses: the local sub-entity [1,1] has the same feature numbers as its parent [1], and every
+	// peer has a sub-entity [1,1] with the same client features as its [1]
+	a = append(a, "sub:A:e1f1:L11lc:lc:d", "sub:B:e11f1:L1lc:lc:d", "unsub:A:e1f1:L11lc:d", "unsub:B:e11f1:L1lc:d", "set:L11lc:2")
 	// data changes
 	a = append(a, "set:L1lc:2", "set:L1lc:1", "upd:L1lc:2", "set:L2lc:1")
 	if thorough {
